@@ -340,13 +340,15 @@ Definition discard_body (q : req) (r : resp) : resp :=
   then set_body r [] else r.
 
 (* repair of responses whose length is unknown and that carry no framing the
-   client understands (present in the source iff wr_frames_unknown_length) *)
+   client understands (present in the source iff wr_frames_unknown_length); iff
+   wr_reframes_close_delimited a body the upstream delimits by closing is sent chunked too
+   (the connection is closed all the same), so that a body cut short stays recognisable *)
 Definition reframe (q : req) (r : resp) : resp :=
   if wr_frames_unknown_length && (r_cl r =? -1)%Z && negb (is_header_only (q_method q) (r_code r)) &&
      negb (is_connect_ok q r)
   then
     if negb (proto_at_least_11 (q_major q) (q_minor q)) then set_close (set_chunked r false) true
-    else if negb (r_chunked r) && negb (r_close r) then
+    else if negb (r_chunked r) && (wr_reframes_close_delimited || negb (r_close r)) then
       (if proto_at_least_11 (r_major r) (r_minor r) then set_chunked r true else set_close r true)
     else r
   else r.
